@@ -95,6 +95,8 @@ SS_SPACE_QUICK = [
     SSCfg("TR", 1, "greater", 3, "coarse", "flat", "basic"),
     SSCfg("NTR", 2, "stateful", 1, "less", "flat"),
     SSCfg("TC4", 3, "less", 2, "greater", "flat", "amc"),
+    # a coarse small destination and a finer, larger source: several source elements collapse into one class of the destination
+    SSCfg("TC4", 2, "coarse", 3, "less", "set", "exact"),
 ]
 SS_SPACE_THOROUGH = [
     SSCfg("NTR", 3, "coarse", 2, "less", "set"),
@@ -114,6 +116,8 @@ SS_HIST_QUICK = [
     SSCfg("TR", 8, "less", 4, "coarse", "flat", "realloc"),
     SSCfg("TC12", 4, "stateful", 8, "stateful", "flat", "std"),
     SSCfg("NTR", 3, "less", 5, "greater", "set", "exact", std="c++20"),  # operator<=>, erase_if
+    SSCfg("TC4", 40, "less", 48, "coarse", "set", "amc"),  # large inline capacities (more than 32 inline elements)
+    SSCfg("TR", 6, "coarse", 12, "less", "flat", "basic"),
 ]
 SS_HIST_THOROUGH = [
     SSCfg("NTR", 8, "coarse", 4, "greater", "flat"),
@@ -309,7 +313,9 @@ SETFAULT_QUICK = [
     SetFaultCfg("small", "TR", "stateful", "less", "flat", 4, "exact"),
 ]
 SETFAULT_THOROUGH = [
-    SetFaultCfg("flat", "TR", "less", "greater", "std", alloc="exact"),
+    # no std::vector underlying here: after a throwing copy std::vector::insert leaves moved-from elements behind (its own basic guarantee);
+    # that is libstdc++ behaviour, not amc code (DESIGN section 8)
+    SetFaultCfg("flat", "TR", "less", "greater", "s8", alloc="exact"),
     SetFaultCfg("flat", "NTR", "greater", "coarse", "s2", alloc="realloc"),
     SetFaultCfg("small", "NTR", "coarse", "less", "set", 1, "exact"),
     SetFaultCfg("small", "NTR", "less", "less", "flat", 8, "exact"),
